@@ -1,5 +1,6 @@
 import FeatherModel.Base.Driver
 import FeatherModel.Model.RemapSpec
+import FeatherModel.Model.Remapper
 
 /-!
 # Driver for C07 (jar remapping)
@@ -24,6 +25,10 @@ Wire format (mirrored by `harness/src/bin/c07.rs`); `x?` is `()` or `(x)`, `o` i
     inner    := (name name? name? o)              encl := (name (name desc)?)
     rc       := (name desc sig? (ann*) (ann*) (tann*) (tann*) (o*))
     table    := ((name name?)*) ((desc desc?)*) (((owner name desc) (name desc)?)*) (((owner name desc) (name desc)?)*)
+
+`oracle-reopen` takes a fifth argument (`t` / `f`): every class of the jar is one duke must be able to write (decided by the
+generator from the hints; the entry-name half of the domain is recomputed here, `reopenNamesOk`). `oracle-table-spec` takes
+`() mappings (supers hints) table` and recomputes every row of the table from mappings and supers with `Model/Remapper.lean`.
 
 The table lists the remapper's answers (`()` = the remapper failed); a question that is not listed is answered like a
 failure (the harness lists every question the traversal can ask, so this shows up as a disagreement).
@@ -126,13 +131,13 @@ def dCode : Sexp → Option Code
       ← dOpaques attrs⟩
   | _ => none
 
-def dField : Sexp → Option Field
+def dField : Sexp → Option RemapTree.Field
   | .list [s, n, d, sig, rva, ria, rvta, rita, attrs] => do
     pure ⟨s, ← dStr n, ← dStr d, ← dOpt dStr sig, ← dList dAnn rva, ← dList dAnn ria, ← dList dTann rvta,
       ← dList dTann rita, ← dOpaques attrs⟩
   | _ => none
 
-def dMethod : Sexp → Option Method
+def dMethod : Sexp → Option RemapTree.Method
   | .list [s, n, d, code, excs, sig, rva, ria, rvta, rita, ad, params, attrs] => do
     pure ⟨s, ← dStr n, ← dStr d, ← dOpt dCode code, ← dOpt (dList dStr) excs, ← dOpt dStr sig, ← dList dAnn rva,
       ← dList dAnn ria, ← dList dTann rvta, ← dList dTann rita, ← dOpt dEv ad, params, ← dOpaques attrs⟩
@@ -252,11 +257,11 @@ def eCode (c : Code) : Sexp :=
   list [c.shape, eList eEntry c.insns, eList eExc c.exceptions, eOpt (eList eLv) c.lvs, eList eTann c.rvta,
     eList eTann c.rita, list c.attributes]
 
-def eField (f : Field) : Sexp :=
+def eField (f : RemapTree.Field) : Sexp :=
   list [f.shape, eStr f.name, eStr f.desc, eOpt eStr f.signature, eList eAnn f.rva, eList eAnn f.ria,
     eList eTann f.rvta, eList eTann f.rita, list f.attributes]
 
-def eMethod (m : Method) : Sexp :=
+def eMethod (m : RemapTree.Method) : Sexp :=
   list [m.shape, eStr m.name, eStr m.desc, eOpt eCode m.code, eOpt (eList eStr) m.exceptions, eOpt eStr m.signature,
     eList eAnn m.rva, eList eAnn m.ria, eList eTann m.rvta, eList eTann m.rita, eOpt eEv m.annotationDefault,
     m.parameters, list m.attributes]
@@ -373,6 +378,23 @@ def oracleEntries (r : Remapper) (j : Jar) : Ans :=
            | _, _ => false) &&
           (stripDotClass a.1 != none || b.1 == a.1)) "entries"
 
+/-- structural half of the domain of `oracle-reopen`, recomputed from the jar (mirror of `reopen_names_ok`): class entries
+carry a `.class` name, nothing else does, directories and only they end in `/`, no empty name -/
+def reopenNamesOk (j : Jar) : Bool :=
+  j.all fun ne =>
+    !ne.1.isEmpty && ((contentKind ne.2.content == 2) == (stripDotClass ne.1 != none)) &&
+      ((contentKind ne.2.content == 0) == ([47] : JStr).isSuffixOf ne.1)
+
+/-- `oracle-reopen`: the flag `w` of the request only says that every class of the jar is one duke must be able to write
+(a statement about the classes the hints name, decided by the generator); the rest of the domain is decided here -/
+def oracleReopen (r : Remapper) (j : Jar) (w : Bool) : Ans :=
+  if !w || !reopenNamesOk j then outOfDomain else
+  match omapM (remapEntry r) j with
+  | none => outOfDomain
+  | some es =>
+    let names := es.map Prod.fst
+    if names.eraseDups.length == names.length then .ok (tag "pass") else outOfDomain
+
 /-! ### the same statements under the names the regression lines of the repaired findings use -/
 
 def oracleFullRefs (r : Remapper) (c : ClassFile) : Ans := oracleRefs r c
@@ -434,6 +456,44 @@ def oracleFullNames (rows : List (JStr × Option JStr × List (JStr × JStr))) (
     else if !innerOk then .ok (list [tag "fail", tag "inner-name"])
     else .ok (tag "pass")
 
+/-! ### the recorded table against the remapper the request describes
+
+The table of a request is recorded from quill's remapper by the harness. `oracle-table-spec` recomputes every recorded
+answer from the mappings and super-type rows of the request with C06's model of `remapper_b` (`Model/Remapper.lean`); the
+harness answers the same question with its own reference lookup (nearest declaring super type in declaration order,
+identity fallback), so a remapper that answers differently from both is a failing input of C07 as well. -/
+
+def dSupers (s : Sexp) : Option _root_.Remapper.Supers :=
+  toListOf? (fun e => match e with
+    | .list [k, ss] => do
+      let k ← toJStr? k; let ss ← toListOf? toJStr? ss
+      pure (k, ss)
+    | _ => none) s
+
+def oracleTableSpec (m : Mappings) (sup : _root_.Remapper.Supers) (t : Sexp) : Option Ans :=
+  match t with
+  | .list [cs, ds, fs, ms] => do
+    let cs ← dList dAnswer1 cs
+    let ds ← dList dAnswer1 ds
+    let fs ← dList dAnswer3 fs
+    let ms ← dList dAnswer3 ms
+    pure (match _root_.Remapper.remapperB m 0 1 with
+      | none => outOfDomain
+      | some r =>
+        let ct := _root_.Remapper.classTable r
+        let fuel := _root_.Remapper.defaultFuel sup
+        let ask := fun (field : Bool) (row : (JStr × JStr × JStr) × Option (JStr × JStr)) =>
+          _root_.Remapper.mapMember (_root_.Remapper.memberSel field) r sup fuel row.1.1 (row.1.2.1, row.1.2.2)
+        if (fs.any fun row => ask true row == none) || (ms.any fun row => ask false row == none) then outOfDomain
+        else if !(cs.all fun row => row.2 == some (_root_.Remapper.mapClass ct row.1)) then
+          .ok (list [tag "fail", tag "table-class"])
+        else if !(ds.all fun row => row.2 == _root_.Remapper.mapDescWith ct row.1) then
+          .ok (list [tag "fail", tag "table-desc"])
+        else if !(fs.all fun row => ask true row == some row.2) then .ok (list [tag "fail", tag "table-field"])
+        else if !(ms.all fun row => ask false row == some row.2) then .ok (list [tag "fail", tag "table-method"])
+        else .ok (tag "pass"))
+  | _ => none
+
 end C07
 
 open C07
@@ -475,12 +535,12 @@ def handleC07 (op : String) (args : List Sexp) : Option Ans :=
     pure (oracleEntries r j)
   | "oracle-reopen", [j, _, _, t, w] => do
     let j ← dJar j; let r ← dTable t; let w ← toBool? w
-    pure (if !w then outOfDomain else
-      match omapM (remapEntry r) j with
-      | none => outOfDomain
-      | some es =>
-        let names := es.map Prod.fst
-        if names.eraseDups.length == names.length then .ok (tag "pass") else outOfDomain)
+    pure (oracleReopen r j w)
+  -- corpus and assembled classes are valid class files by construction: a reader that rejects one fails this line
+  | "oracle-hint-reads", [_] => some (.ok (tag "pass"))
+  | "oracle-table-spec", [_, m, .list [sup, _], t] => do
+    let m ← Codec.mappingsFrom m; let sup ← dSupers sup
+    oracleTableSpec m sup t
   | _, _ => none
 
 def main : IO Unit := Driver.run handleC07
